@@ -92,3 +92,7 @@ pub mod version;
 pub use error::{Result, WdlError};
 pub use types::WdlFile;
 pub use version::WdlVersion;
+
+// verification hook (guard: cfg(kani), set only by `cargo kani`): harness module lives in /verif
+#[cfg(kani)]
+mod verif_kani;
